@@ -430,6 +430,31 @@ def shrink(sc):
                         yield c
 
 
+    # 4b. drop files nothing refers to, then single keys of the remaining documents (flow mappings, text level)
+    if sc['scheds'][0].get('policy') != 'explicit':
+        from .c07 import _drop_items
+        for pi, p in enumerate(sc['programs']):
+            texts = [sr.get('text', '') + sr.get('path', '') for op in p['ops'] for sr in op['sources']] + list(p['files'].values())
+            for fn in list(p['files']):
+                base = fn.rsplit('/', 1)[1]
+                if not any(base in t for t in texts if t is not p['files'][fn]):
+                    c = copy.deepcopy(sc)
+                    del c['programs'][pi]['files'][fn]
+                    yield c
+            for fn, txt in p['files'].items():
+                if '---' in txt:
+                    continue
+                for cand in _drop_items(txt):
+                    c = copy.deepcopy(sc)
+                    c['programs'][pi]['files'][fn] = cand
+                    yield c
+            for oi, op in enumerate(p['ops']):
+                for si, sr in enumerate(op['sources']):
+                    if 'text' in sr and '---' not in sr['text']:
+                        for cand in _drop_items(sr['text']):
+                            c = copy.deepcopy(sc)
+                            c['programs'][pi]['ops'][oi]['sources'][si]['text'] = cand
+                            yield c
     # 5. last: switch from the seeded schedule to the recorded explicit one (then stage 2 applies)
     if sc['scheds'][0].get('policy') != 'explicit' and sc.get('explicit_sched'):
         c = copy.deepcopy(sc)
